@@ -89,8 +89,13 @@ def main():
     dst = os.path.join(VERIF, "seeded", sid)
     os.makedirs(dst, exist_ok=True)
     shutil.copy(patch, os.path.join(dst, "patch.diff"))
-    for f in demo_files:
-        shutil.copy(os.path.join(out, f), os.path.join(dst, f))
+    for root, _dirs, files in os.walk(out):
+        for f in files:
+            if root == out and f in ("patch.diff", "meta.json"):
+                continue
+            rel = os.path.relpath(os.path.join(root, f), out)
+            os.makedirs(os.path.dirname(os.path.join(dst, rel)) or dst, exist_ok=True)
+            shutil.copy(os.path.join(root, f), os.path.join(dst, rel))
     meta["confirmed"] = confirmed
     meta["origin"] = "independent sub-agent given only the property text and a scratch worktree; nothing from /verif"
     with open(os.path.join(dst, "meta.json"), "w", encoding="utf-8") as f:
